@@ -26,7 +26,7 @@ from ..machine import TraceMachine, replay_trace_machine, run_trace_machine, tra
 
 LEVEL = "exploration"
 WORKERS = {"quick": 8, "thorough": 16}
-BUDGET_S = {"quick": 50, "thorough": 650}
+BUDGET_S = {"quick": 40, "thorough": 650}
 RULE = (
     "Hypothesis RuleBasedStateMachine (<= 15 steps; the executed trace is the case) over a scratch "
     "workspace of <= 5 live files and one State. Mutations: write_in_place, atomic_replace (new "
@@ -93,7 +93,7 @@ clock_s = st.one_of(
 prime_s = st.sampled_from([None, None, 0, 0, 1, 2])
 probe_s = st.sampled_from([None, None, None, "get", "get+info", "many", "many+infos", "hash_file",
                            "hash_file+info", "get_hashes", "build_file", "build_entries", "index"])
-size_s = st.sampled_from([0, 1, 2, 2, 3, 5, 5, 8, 8, 8, 8, 998, 999, 1000, 1001, 2500])
+size_s = st.sampled_from([0, 1, 2, 2, 3, 5, 5, 8, 8, 8, 8, 8, 8, 8, 8, 998, 999, 1000, 1001, 2500])
 pos_s = st.lists(
     st.one_of(st.sampled_from([0, 1, 997, 998, 999, 1000, 1001, 1997, 1998, 1999, 2497, 2499]),
               st.integers(0, 3000)),
@@ -731,7 +731,7 @@ class C13Machine(TraceMachine):
 
 
 def run(ctx):
-    n = ctx.n(quick=100, thorough=1200)
+    n = ctx.n(quick=80, thorough=1200)
     if ctx.scratch_kind == "disk":  # sqlite on ext4 syncs: same budget, fewer histories
         n = max(1, n // 3)
     run_trace_machine(ctx, C13Machine, n, 15)
